@@ -6,7 +6,7 @@ KINDS = ["NewGrp", "Sub", "Leave", "SetSelf", "SetOther", "Pub", "Note", "Unload
 
 def run(ctx):
     return tc.run_topic_check(
-        ctx, "C09", kinds=KINDS, maxseq=4, nusers=2, sess_per_user=2, p2p=True, chan=True,
+        ctx, "C09", kinds=KINDS, maxseq=4, nusers=2, sess_per_user=2, p2p=True, chan=True, special=True,
         want=["-", "N", "JRW", "JW", "JR"], given=["-", "JRW", "JW", "JRWPAS"],
         u1_quick={"want": ["-", "JRW", "JW"], "given": ["-", "JRW"], "kinds": ["NewGrp", "Sub", "Leave", "Pub", "Note", "Unload"], "maxseq": 2, "nusers": 2},
         u1_thorough={"want": ["-", "JRW", "JW"], "given": ["-", "JRW", "JW"], "kinds": KINDS, "maxseq": 2, "nusers": 2},
